@@ -91,11 +91,19 @@ func sweepQueries(u *universe, repos []string) []Query {
 		for _, t := range append(append([]string(nil), u.Tags...), "nosuchtag") {
 			qs = append(qs, Query{K: "GetTag", Repo: r, Tag: t}, Query{K: "ResolveTag", Repo: r, Tag: t})
 		}
-		for _, after := range []string{"", "t", "s!", "u", "zz", "\x00"} {
+		tagAfters := []string{"", "zz", "\x00"}
+		for _, t := range u.Tags {
+			tagAfters = append(tagAfters, t, t+"!")
+		}
+		for _, after := range tagAfters {
 			qs = append(qs, Query{K: "Tags", Repo: r, After: after})
 		}
 	}
-	for _, after := range []string{"", "q", "r", "r!", "s", "zz", "\x00"} {
+	repoAfters := []string{"", "q", "zz", "\x00"}
+	for _, n := range u.Repos {
+		repoAfters = append(repoAfters, n, n+"!")
+	}
+	for _, after := range repoAfters {
 		qs = append(qs, Query{K: "Repositories", After: after})
 	}
 	return qs
